@@ -337,7 +337,15 @@ namespace {
         // while it holds it (it takes its internal lock first): where no other worker can steal, the spinning
         // task can starve the owner in its own queue for good (C01's known finding kf_yield_starvation, seen
         // once in 29 000 thorough runs with min_tasks_to_steal_pending = 3). Task parties only where stealing works.
-        if (std::is_same_v<Mutex, spin_t> && !pk::steals(ctx)) os_mask = ctx.params.set("c07.os_mask", 63);
+        // ... and only while at least one worker stays free of spinning parties (a worker steals only when it
+        // is idle): as many workers as task parties.
+        {
+            int task_parties = 0;
+            for (int i = 0; i < nparties; i++)
+                if (!((os_mask >> i) & 1)) task_parties++;
+            if (std::is_same_v<Mutex, spin_t> && (!pk::steals(ctx) || pk::workers(ctx) < task_parties))
+                os_mask = ctx.params.set("c07.os_mask", 63);
+        }
         if (!ctx.program_from_replay) ctx.program = gen(ctx, nparties, HasStop);
         sim_config sc = draw_sim_config(ctx, 60000, FAULT_STALL | FAULT_CLOCKJUMP | FAULT_TRYFAIL | FAULT_SPURIOUS);
         begin_sim(ctx, sc);
